@@ -24,7 +24,7 @@ RULE = (
     "function, one in a helper, one as a data function of another module, or one as the path of the entry point itself (dds.keep(p, root) / "
     "@dds.data_function(p) on the evaluated function); (B) every cycle of length 1-4 over 4 edge kinds, "
     "entered at every member, in one and in two modules, plus the same shape with one edge cut; (C) dds.eval at depth 1-4 "
-    "below plain-call / keep edges, plus the same chain without the eval. Each program is evaluated by real dds on a store "
+    "below plain-call / keep edges, plus the same chain without the eval. Each program is evaluated by real dds (every sixth one after a first evaluation attempt made while its package was not accepted yet) on a store "
     "pre-populated by a valid evaluation; oracle = expected DDS error code (or normal evaluation for the well-formed twin), "
     "empty execution log, no store_blob / sync_paths traffic and unchanged store directories on rejection. Non-trivial = the "
     "offending items are non-adjacent in call order, nested, or in another module; distinct by program text."
@@ -353,6 +353,9 @@ class Runner(object):
         self.fresh_store()
         pkg = f"cy{os.getpid()}_{self.n}"
         write_files(self.root, render_case(case, pkg))
+        if case.get("late_accept"):
+            # the package is first met while it is not accepted (whatever dds answers), and accepted afterwards
+            self.w.call("eval", module=f"{pkg}.m0", func="root", style="eval")
         self.w.call("call", module="dds", func="accept_module", args=[pkg])
         before = snapshot(self.store_dir)
         if case["fam"] == "A" and case["placement"] == "entrykeep":
@@ -402,7 +405,7 @@ def shard(idx, n, tier, seed):
     ev = Ev()
     cases = family_a(tier) + family_b(tier, ev.excluded if idx == 0 else None) + family_c(tier)
     # rotate by seed so that different seeds put different cases first (the set is the same)
-    mine = [c for i, c in enumerate(cases) if (i + seed) % n == idx]
+    mine = [dict(c, late_accept=True) if (i // n) % 6 == 3 else c for i, c in enumerate(cases) if (i + seed) % n == idx]
     scratch = common.Scratch("vf-c11")
     runner = Runner(scratch)
     try:
@@ -410,7 +413,7 @@ def shard(idx, n, tier, seed):
             res, unchanged = runner.run(case)
             judge(case, res, unchanged)
             ev.case(case, nontrivial(case), features=["family:" + case["fam"], "expect:" + str(expected_of(case))]
-                    + ([f"placement:{case['placement']}"] if case["fam"] == "A" else []))
+                    + ([f"placement:{case['placement']}"] if case["fam"] == "A" else []) + (["accepted-after-a-first-evaluation"] if case.get("late_accept") else []))
     finally:
         runner.close()
         scratch.clean()
